@@ -93,7 +93,7 @@ VAR_BODIES = [
     binop('<', ('var', 'i'), AY),
     ('un', 'not', binop('>', ('var', 'i'), L(1))),
 ]
-PLAIN_BODIES = [P, binop('>', X, L(0)), AB]
+PLAIN_BODIES = [P, binop('>', X, L(0)), AB, TRUE, FALSE]
 
 
 def F(text):
@@ -107,7 +107,7 @@ def F(text):
 POW_BASES = [X, AY, ('un', '-', X), binop('+', X, L(1)), L(2), binop('*', X, AY), L(0)]
 POW_EXPS = [L(0), L(1), L(2), L(3), ('un', '-', L(1)), ('un', '-', L(2)), F('0.5'), F('1.5')]
 LIN_VARS = [X, AY, ('un', '-', X)]
-LIN_CONSTS = [L(0), L(1), L(2), ('un', '-', L(1)), F('0.5'), L(3)]
+LIN_CONSTS = [L(0), L(1), L(2), ('un', '-', L(1)), F('0.5'), L(3), F('0.0'), F('1.0')]
 LIN_OPS = ['+', '-', '*', '/']
 Z = own('z')
 CMP_ATOMS = [X, Z, AY, L(0), L(1)]
@@ -212,6 +212,8 @@ def families():
         Family('lin_two_consts_l', [LIN_OPS, LIN_OPS, LIN_VARS, LIN_CONSTS, LIN_CONSTS], lambda o1, o2, v, c1, c2: binop(o2, binop(o1, v, c1), c2)),
         Family('lin_two_consts_r', [LIN_OPS, LIN_OPS, LIN_VARS, LIN_CONSTS, LIN_CONSTS], lambda o1, o2, v, c1, c2: binop(o2, c2, binop(o1, c1, v))),
         Family('lin_same_var', [LIN_OPS, LIN_OPS, LIN_VARS, LIN_CONSTS], lambda o1, o2, v, c: binop(o2, binop(o1, v, c), v)),
+        Family('lin_cmp_same', [RELS, LIN_OPS, LIN_VARS + [binop('*', X, L(2))], LIN_CONSTS, [0, 1]],
+               lambda r, o, v, c, side: binop(r, binop(o, v, c), v) if side == 0 else binop(r, v, binop(o, c, v))),
         Family('lin_cmp', [RELS, LIN_OPS, LIN_VARS, LIN_CONSTS, LIN_CONSTS], lambda r, o, v, c1, c2: binop(r, binop(o, v, c1), c2)),
         Family('lin_cmp_r', [RELS, LIN_OPS, LIN_VARS, LIN_CONSTS, LIN_CONSTS], lambda r, o, v, c1, c2: binop(r, c2, binop(o, c1, v))),
         Family('lin_cmp_both', [RELS, LIN_OPS, LIN_VARS, LIN_VARS, LIN_CONSTS], lambda r, o, v, w, c: binop(r, binop(o, v, c), binop(o, w, c))),
@@ -247,5 +249,5 @@ def nth(fams, idx):
 
 def boolean_family_names():
     return {'cmp_depth1', 'bool_depth2', 'bool_not_depth2', 'quant', 'quant_not', 'quant_not2', 'quant_not3', 'bool_not2', 'quant_body_not', 'quant_conn', 'quant_conn_r', 'bool_cmp',
-            'lin_cmp', 'lin_cmp_r', 'lin_cmp_both', 'cmp_pair', 'cmp_pair_not', 'nested_quant', 'nested_quant_outer',
+            'lin_cmp', 'lin_cmp_r', 'lin_cmp_both', 'lin_cmp_same', 'cmp_pair', 'cmp_pair_not', 'nested_quant', 'nested_quant_outer',
             'in_range', 'in_set', 'quant_lit_range'}  # fmt: skip
